@@ -631,7 +631,7 @@ Section Step.
           cbn [agrees]; [discriminate|discriminate|].
         destruct He as [l [He Hl]]. inversion He; subst l.
         rewrite filter_app. rewrite (run_op_no_enf _ _ _ _ _ _ _ _ E2 : filter is_enforce l2 = []), app_nil_r, <- Hl.
-        apply same_enforce_filter_refl.
+        rewrite same_enforce_filter_refl. cbn [andb]. eapply asked_model; exact E1.
       + pose proof (agrees_expectation (s_acct st) (s_modes st) (s_now st) auths sigs cs W) as Ha.
         destruct (do_check_auth _ _ _ _ _ _); cbn [fst snd]; rewrite same_table_acct by reflexivity;
           cbn [observe ob_now s_now]; rewrite Z.add_0_r, Z.eqb_refl, Ha; reflexivity.
@@ -652,7 +652,8 @@ Section Step.
           rewrite same_table_acct by reflexivity; cbn [observe ob_now s_now]; rewrite Z.add_0_r, Z.eqb_refl.
         * rewrite andb_true_r. destruct (expectation (a_rules (s_acct st)) M (s_now st) auths sigs [cx]) as [| |enf];
             cbn [agrees]; [discriminate|discriminate|].
-          destruct He as [l [He Hl]]. inversion He; subst l. rewrite <- Hl. apply same_enforce_filter_refl.
+          destruct He as [l [He Hl]]. inversion He; subst l. rewrite <- Hl, same_enforce_filter_refl. cbn [andb].
+          eapply asked_model0; exact E1.
         * destruct (expectation _ _ _ _ _ _); reflexivity.
     - (* not yet deployed *)
       assert (Ea : s_acct st = acct0) by (apply Sa; reflexivity).
